@@ -105,7 +105,12 @@ func runTuGroup(cfg WiCfg, cases []TuCase, gidx int, emit func(c TuCase, coq str
 			panic(err)
 		}
 		conn.SetDeadline(time.Now().Add(6 * time.Second))
-		req := "GET /ws HTTP/1.1\r\nHost: tunnel.local\r\nUpgrade: websocket\r\nConnection: Upgrade\r\nSec-WebSocket-Key: dGhlIHNhbXBsZSBub25jZQ==\r\nSec-WebSocket-Version: 13\r\n"
+		connTok := "Upgrade"
+		if c.Browser {
+			// what browsers really send: a token list (Firefox: keep-alive, Upgrade)
+			connTok = []string{"keep-alive, Upgrade", "Upgrade, keep-alive", "upgrade"}[len(c.Msgs)%3]
+		}
+		req := "GET /ws HTTP/1.1\r\nHost: tunnel.local\r\nUpgrade: websocket\r\nConnection: " + connTok + "\r\nSec-WebSocket-Key: dGhlIHNhbXBsZSBub25jZQ==\r\nSec-WebSocket-Version: 13\r\n"
 		for _, p := range cfg.Chain {
 			if p.Name == "custom-auth" {
 				req += "X-API-Key: " + p.Key + "\r\n"
